@@ -257,6 +257,9 @@ func openD(cfg, corpus, work string) *bluge.Reader {
 	p := kvOf(cfg)
 	var c bluge.Config
 	if p["dir"] == "fs" {
+		if dSeq == 0 { // leftovers of an earlier run (the last index of a run is still open when the process exits)
+			_ = os.RemoveAll(filepath.Join(work, "c17idx"))
+		}
 		dSeq++
 		dDir = filepath.Join(work, "c17idx", fmt.Sprintf("d%d_%d", os.Getpid(), dSeq))
 		_ = os.RemoveAll(dDir)
